@@ -587,6 +587,10 @@ scen_cfg(const tscen *sc, tp_cfg *cc, tp_cfg *sv, uint16_t *sb, uint64_t seedv)
 	cc->suites = sb; cc->nsuites = 1; cc->vmin = cc->vmax = sc->version;
 	sv->keykind = tp_key_for_suite(tp_suite_find(sb[0]), 0);
 	cc->client_auth = sc->cauth; sv->client_auth = sc->cauth ? 1 : 0;
+	/* every other scenario: a client with 837 / 597-byte buffers: its hello asks for 512-byte fragments, the server's
+	   flight and data leave in many small records (what the server emits after the extension must not depend on
+	   where the bytes of the hello were cut) */
+	if (sc->variant & 1) { cc->layout = TP_LAYOUT_SPLIT2; cc->buflen = 512 + 325; cc->buflen_out = 512 + 85; }
 	vf_bytes(&r, cc->seed, 32); vf_bytes(&r, sv->seed, 32);
 	if (sc->resumed) { sv->cache = &lru.vtable; }
 }
